@@ -131,6 +131,15 @@ def _case(draw, maxstages, maxdepth):
                 # the stage's value is a member sequence itself (Select must keep it nested, not flatten it)
                 se, t = draw(st.sampled_from(sp0))
                 body = typed._fill(cx, se)
+            osp = [(e_, t_) for e_, t_ in sp0 if t_[1][0] == "O"]
+            if osp and draw(st.integers(0, 9)) == 0:
+                # a method called DIRECTLY on First() of a member sequence, its arguments (partly) given by keyword
+                se, st_ = draw(st.sampled_from(osp))
+                kwm = [(m, mt) for m, mt in cfg.members[st_[1][1]] if "=" in m and mt in (typed.I, typed.F)]
+                if kwm:
+                    m, t = draw(st.sampled_from(kwm))
+                    first = f"{typed._fill(cx, se)}.First()" if cfg.method_form >= 0.5 else f"First({typed._fill(cx, se)})"
+                    body = first + typed._fill(cx, m)
             if cfg.helpers and t in (typed.I, typed.F) and draw(st.integers(0, 2)) == 0:
                 # a two-argument, non-commutative helper called positionally at the root of the body
                 other = typed.gen(cx, env, t, 0)
